@@ -98,9 +98,41 @@ CHECKS["C01"] = {
     "assumptions": ["two hand-built probe schemas stand for 'all schemas'; the reference executor (probes/ref) is the oracle",
                     "scheduler: run-to-block, lowest task id first (schedule independence is C06)"],
     "harnesses": [
-        {"probe": "core", "harness": "Harness_C01_exec", "setup": "Setup_C01_exec", "reach": ["c01.compared"], "workers": 10,
+        {"probe": "core", "harness": "Harness_C01_exec", "setup": "Setup_C01_exec", "reach": ["c01.compared"], "workers": 10, "sched": "first",
          "configs_quick": ["single", "follow"], "configs_thorough": ["single", "follow", "funcsyn", "wl1", "wl2", "omitptr", "follow_wl2"],
          "quick": {"params": {"budget": 1}, "sample_models": 40, "sample_every": 9}, "thorough": {"params": {"budget": 2}, "sample_models": 200, "sample_every": 23},
          "what": "generated executor (api.Generate at check time) vs reference on 8 operation families with symbolic @skip/@include variables and resolver/directive outcomes {value,null,error} within a deviation budget"},
+    ],
+}
+
+CHECKS["C04"] = {
+    "prepare": probes.prepare,
+    "assumptions": CHECKS["C01"]["assumptions"] + ["a panic escaping any interpreted goroutine is reported as a process crash"],
+    "harnesses": [
+        {"probe": "core", "harness": "Harness_C04_faults", "setup": "Setup_C04_faults", "reach": ["c04.compared", "c04.panic"], "workers": 10, "sched": "first",
+         "configs_quick": ["single", "wl1"], "configs_thorough": ["single", "follow", "funcsyn", "wl1", "wl2", "follow_wl2"],
+         "quick": {"params": {"budget": 1}, "sample_models": 40, "sample_every": 5}, "thorough": {"params": {"budget": 2}, "sample_models": 200, "sample_every": 31},
+         "what": "fault injection {error, panic} at every resolver / directive position of 8 operation families (single faults quick, pairs thorough) on the generated executor; worker_limit 0/1/2"},
+    ],
+}
+
+CHECKS["C06"] = {
+    "prepare": probes.prepare,
+    "assumptions": ["tasks switch only at synchronisation operations (plus a preemption budget); exhaustive for data-race-free code, and race freedom is checked on every explored schedule by a happens-before (vector clock) detector",
+                    "the reference executor is schedule-free, so equality with it on every explored schedule is schedule independence"],
+    "harnesses": [
+        {"probe": "core", "harness": "Harness_C06_schedules", "setup": "Setup_C06_schedules", "reach": ["c06.compared"], "workers": 12, "race": True,
+         "configs_quick": ["single"], "configs_thorough": ["single", "wl1", "wl2", "follow"],
+         "quick": {"params": {"budget": 1}, "sample_models": 10, "sample_every": 37}, "thorough": {"params": {"budget": 2}, "preempt": 0, "sample_models": 30, "sample_every": 101},
+         "no_native": False,
+         "what": "every completion order of concurrently resolved fields / list elements at blocking points (plus 1 preemption, thorough) on 5 families x outcome deviations; data and error multiset equal the reference on each; vector-clock race check on every load/store"},
+        {"probe": "core", "harness": "Harness_C06_invalids", "setup": "Setup_C06_schedules", "reach": ["c06.invalids"], "workers": 6, "race": True,
+         "configs_quick": ["single", "wl2"], "configs_thorough": ["single", "wl1", "wl2", "follow"],
+         "quick": {"preempt": 1}, "thorough": {"preempt": 2},
+         "what": "several non-null siblings failing concurrently (fixed outcomes): every schedule incl. preemptions; race check on the shared field set"},
+        {"probe": "core", "harness": "Harness_C06_mutationSerial", "setup": "Setup_C06_schedules", "reach": ["c06.serial"], "workers": 6, "race": True,
+         "configs_quick": ["single"], "configs_thorough": ["single", "wl1", "follow"],
+         "quick": {"params": {"budget": 1}}, "thorough": {"params": {"budget": 2}, "preempt": 1},
+         "what": "mutation root fields start in document order, each after the previous field's whole sub-selection (spawned resolvers included) has finished, on every schedule"},
     ],
 }
